@@ -5,7 +5,7 @@
    well-indexed operations, each optionally followed by one operation with a bad index (out of range, negative,
    fractional, string, nil, boolean); after every step both variables are printed, so the real interpreter is
    compared with the pure list model after every operation. *)
-EXTENDS BornoSem, SequencesExt
+EXTENDS BornoSem, SequencesExt, SanitySets
 CONSTANTS HistLen, NRandom, RandLen, EmitOn
 
 Num(i) == Lit(N(i))
